@@ -122,14 +122,26 @@ def regular_residues(conf):
             continue
         pep = (na == "C" and nb == "N") or (na == "N" and nb == "C")
         ss = na == "SG" and nb == "SG"
-        for r_, other_is_atom in ((ra, b["aid"][0] == "atom"), (rb, a["aid"][0] == "atom")):
-            if r_ in inter_ok and not ((pep or ss) and other_is_atom):
+        for r_ in (ra, rb):
+            # links to other residues: peptide C-N (the neighbour may be a hetero residue such as
+            # MSE written as HETATM) and disulfides
+            if r_ in inter_ok and not (pep or ss):
                 inter_ok[r_] = False
-        if pep:
-            if na == "N" and ra in n_peptide:
-                n_peptide[ra] = True
-            if nb == "N" and rb in n_peptide:
-                n_peptide[rb] = True
+    # "chain neighbour present" is decided from the coordinates, not from the perceived bonds:
+    # a backbone N with the carbonyl C of another residue at peptide-bond distance
+    carbons = [(k, h) for k, h in atoms.items() if h["aid"][5] == "C"]
+    for rid, names in res.items():
+        kn = names.get("N")
+        if kn is None:
+            continue
+        for kc, h in carbons:
+            rc = (h["aid"][1], h["aid"][2], h["aid"][3], h["aid"][4])
+            if rc == rid:
+                continue
+            d2 = (kn[1] - kc[1]) ** 2 + (kn[2] - kc[2]) ** 2 + (kn[3] - kc[3]) ** 2
+            if d2 < 1600 ** 2:
+                n_peptide[rid] = True
+                break
     out = {}
     for rid, names in res.items():
         resn = rid[3].strip()
